@@ -55,9 +55,28 @@ def check(ctx, timeout):
     from vc import backends
     for version in (1, 2):
         def h_numpyio(eng, p, args, kw, node):
-            ten = CI(z3.BitVecVal(10, 32), 32, False, z3.IntVal(10), (10, 10))
+            # the scratch buffer has the size the code ALLOCATES for it (np.empty(<n>, dtype=uint8)), not a size assumed here
+            buf = args[0] if args else None
+            size = getattr(getattr(buf, "h", None), "size", None)
+            if size is None:
+                raise Unsupported("NumpyIO over a buffer whose allocation size is not visible")
+            sz = z3.simplify(size)
+            if not z3.is_int_value(sz):
+                raise Unsupported("NumpyIO over a buffer of symbolic size")
+            k = sz.as_long()
+            cap = CI(z3.BitVecVal(k, 32), 32, False, z3.IntVal(k), (k, k))
             zero = CI(z3.BitVecVal(0, 32), 32, False, z3.IntVal(0), (0, 0))
-            return [(p, cy.new_io(p, "temp", loc=zero, nbytes=ten))]
+            p.ghost["scratch_size"] = k
+            return [(p, cy.new_io(p, "temp", loc=zero, nbytes=cap))]
+
+        class ScratchBuf:
+            tracked = False
+
+            def __init__(self, size):
+                self.size = size
+
+        def h_empty(eng, p, args, kw, node):
+            return [(p, Custom(ScratchBuf(eng.as_int(args[0], p))))]
 
         def inline(name):
             def h(eng, p, args, kw, node):
@@ -68,7 +87,7 @@ def check(ctx, timeout):
                     out.append((r, v))
                 return out
             return h
-        handlers = {"NumpyIO": h_numpyio, "np.empty": lambda e, p, a, k, n: [(p, Opaque("buf"))],
+        handlers = {"NumpyIO": h_numpyio, "np.empty": h_empty,
                     "cencoding.encode_unsigned_varint": inline("encode_unsigned_varint"), "struct.pack": h_struct_pack,
                     "bytes+": lambda e, p, a, b, n: BytesV(concat(view_to_bts(p, a), view_to_bts(p, b))),
                     "bytes": lambda e, p, a, k, n: [(p, BytesV(view_to_bts(p, a[0])))],
@@ -125,7 +144,7 @@ def check(ctx, timeout):
             # the scratch buffer never fills: cursor after the run <= 10 and every byte was really written
             st, m, secs = solve([*q.pc, z3.Not(cy.loc(q, "temp") == run.n)], timeout)
             res.add(f"deflevels.scratch_capacity[v{version}]", st, {"n_rows": backends.model_value(m, n)} if m is not None else None, secs, "z3",
-                    "every byte of the run fitted the 10-byte scratch buffer (NumpyIO.write_byte drops bytes silently when full)")
+                    "every byte of the run fitted the scratch buffer the code allocates (%s bytes; NumpyIO.write_byte drops bytes silently when full)" % q.ghost.get("scratch_size"))
         if n_ret == 0:
             res.add(f"deflevels.block_is_spec[v{version}]", UNKNOWN, None, 0.0, "engine", "no returning path")
     return res
